@@ -125,32 +125,49 @@ func kdeRecord(out io.Writer, args []string) error {
 				wi[i] = 1 + rng.Intn(9)
 			}
 		}
-		minx, maxx := iv[0], iv[0]
-		for _, v := range iv {
-			if v < minx {
-				minx = v
+		var minx, maxx int64
+		var xs, ws, gxs, gws []float64
+		var okX, okW func() bool
+		var wsum float64
+		kde := &stats.KDE{}
+		setSample := func() { // (re)build the float slices handed to the library from iv / wi
+			minx, maxx = iv[0], iv[0]
+			for _, v := range iv {
+				if v < minx {
+					minx = v
+				}
+				if v > maxx {
+					maxx = v
+				}
 			}
-			if v > maxx {
-				maxx = v
+			n = len(iv)
+			xs = make([]float64, n)
+			for i, v := range iv {
+				xs[i] = real(v)
 			}
-		}
-		xs := make([]float64, n)
-		for i, v := range iv {
-			xs[i] = real(v)
-		}
-		var ws []float64
-		if wi != nil {
-			ws = make([]float64, n)
-			for i, w := range wi {
-				ws[i] = float64(w)
+			ws = nil
+			if wi != nil {
+				ws = make([]float64, n)
+				for i, w := range wi {
+					ws[i] = float64(w)
+				}
 			}
+			gxs, okX = guarded(xs)
+			gws, okW = nil, func() bool { return true }
+			if ws != nil {
+				gws, okW = guarded(ws)
+			}
+			wsum = 0
+			for i := range iv {
+				if wi == nil {
+					wsum++
+				} else {
+					wsum += float64(wi[i])
+				}
+			}
+			kde.Sample = stats.Sample{Xs: gxs, Weights: gws}
 		}
-		gxs, okX := guarded(xs)
-		var gws []float64
-		okW := func() bool { return true }
-		if ws != nil {
-			gws, okW = guarded(ws)
-		}
+		setSample()
 		// configuration mirrored by the spec
 		type cfg struct {
 			kern   string
@@ -166,9 +183,9 @@ func kdeRecord(out io.Writer, args []string) error {
 		if absOff < 0 {
 			absOff = -absOff
 		}
-		canAuto := wi == nil && n >= 4 && absOff <= 512*spread && scottRef(iv) > 0
+		canAuto := func() bool { return wi == nil && len(iv) >= 4 && absOff <= 512*spread && scottRef(iv) > 0 }
 		pickH := func() float64 {
-			if canAuto && rng.Intn(4) == 0 {
+			if canAuto() && rng.Intn(4) == 0 {
 				return 0
 			}
 			base := float64(spread) * []float64{0.05, 0.25, 1, 3}[rng.Intn(4)]
@@ -176,9 +193,6 @@ func kdeRecord(out io.Writer, args []string) error {
 			return hn / 8 * []float64{1, 1, 0.5, 4}[rng.Intn(4)] // multiples of 1/16
 		}
 		pickB := func(h float64, kern string) (string, int64, int64) {
-			if kern == "de" {
-				return "none", 0, 0
-			}
 			hh := h
 			if hh == 0 {
 				hh = scottRef(iv)
@@ -212,7 +226,6 @@ func kdeRecord(out io.Writer, args []string) error {
 		c := cfg{kern: kernels[rng.Intn(3)]}
 		c.h = pickH()
 		c.kind, c.lo, c.hi = pickB(c.h, c.kern)
-		kde := &stats.KDE{Sample: stats.Sample{Xs: gxs, Weights: gws}}
 		apply := func() {
 			kde.Kernel = kk[c.kern]
 			kde.Bandwidth = math.Ldexp(c.h, sc)
@@ -251,10 +264,6 @@ func kdeRecord(out io.Writer, args []string) error {
 				return 1
 			}
 			return float64(wi[i])
-		}
-		wsum := 0.0
-		for i := range iv {
-			wsum += weight(i)
 		}
 		// harness-evaluated Gaussian kernel averages at the real point t with real bandwidth h
 		gy := func(t, h float64) float64 {
@@ -322,12 +331,66 @@ func kdeRecord(out io.Writer, args []string) error {
 		segs := 2 + rng.Intn(4)
 		for s := 0; s < segs; s++ {
 			if s > 0 {
-				switch rng.Intn(3) {
+				op := rng.Intn(5)
+				if c.h == 0 && op >= 3 {
+					op = 0 // a pending Scott bandwidth is tied to the unweighted sample it will be computed from
+				}
+				switch op {
+				case 3: // new weights on the same values (same length, so nothing about the shape of the sample changes)
+					if wi != nil && rng.Intn(4) == 0 {
+						wi = nil
+					} else {
+						wi = make([]int, len(iv))
+						for i := range wi {
+							wi[i] = 1 + rng.Intn(9)
+						}
+					}
+					setSample()
+					apply()
+					ev = blank("SetWeights")
+					if wi != nil {
+						ev.Ws = wi
+					}
+				case 4: // new values: same length (only the contents change) or one value more / fewer
+					switch rng.Intn(3) {
+					case 0:
+						iv = append([]int64{}, iv...)
+						for i := range iv {
+							iv[i] = off + rng.Int63n(2*spread+1) - spread
+						}
+					case 1:
+						iv = append(append([]int64{}, iv...), off+rng.Int63n(2*spread+1)-spread)
+						if wi != nil {
+							wi = append(append([]int{}, wi...), 1+rng.Intn(9))
+						}
+					case 2:
+						if len(iv) > 1 {
+							iv = append([]int64{}, iv[:len(iv)-1]...)
+							if wi != nil {
+								wi = append([]int{}, wi[:len(iv)]...)
+							}
+						}
+					}
+					setSample()
+					if c.kind != "none" { // keep the data inside the boundaries
+						c.kind, c.lo, c.hi = pickB(c.h, c.kern)
+					}
+					apply()
+					ev = blank("SetXs")
+					for _, v := range iv {
+						ev.Xs = append(ev.Xs, sbigI(v))
+					}
+					if wi != nil {
+						ev.Ws = wi
+					}
+					fillCfg(&ev)
+					if err := enc.Encode(ev); err != nil {
+						return err
+					}
+					ev = blank("SetBounds")
+					fillCfg(&ev)
 				case 0:
 					c.kern = kernels[rng.Intn(3)]
-					if c.kern == "de" && c.kind != "none" {
-						c.kern = "ep"
-					}
 					apply()
 					ev = blank("SetKernel")
 					fillCfg(&ev)
@@ -398,6 +461,8 @@ func kdeRecord(out io.Writer, args []string) error {
 				reach := 1.0
 				if c.kern == "ga" {
 					reach = 10
+				} else if c.kern == "de" {
+					reach = 0
 				}
 				ev.N = imageN(hl, reach)
 				inside := (c.kind == "none" || c.kind == "hi" || x >= c.lo) && (c.kind == "none" || c.kind == "lo" || x < c.hi)
@@ -429,7 +494,7 @@ func kdeRecord(out io.Writer, args []string) error {
 					return err
 				}
 			}
-			if c.kern != "de" && rng.Intn(2) == 0 {
+			if rng.Intn(2) == 0 {
 				ev = blank("Bounds")
 				lo, hi := kde.Bounds()
 				ev.BLo, ev.BHi = mkfdy(lo), mkfdy(hi)
